@@ -18,7 +18,8 @@ class TranslateError(Exception):
 
 
 TOK = re.compile(r"""
-   (?P<num>\d[\d_]*(?:\.(?!\.)\d*)?(?:[eE][+-]?\d+)?(?:f64|u64|i64|usize)?)
+   (?P<str>"(?:[^"\\]|\\.)*")
+ | (?P<num>\d[\d_]*(?:\.(?!\.)\d*)?(?:[eE][+-]?\d+)?(?:f64|u64|i64|usize)?)
  | (?P<id>[A-Za-z_][A-Za-z0-9_]*(?:::[A-Za-z_][A-Za-z0-9_]*)*)
  | (?P<op>\.\.=|\.\.|=>|<=|>=|==|!=|&&|\|\||\*=|\+=|-=|/=|[-+*/%<>=!&.,;(){}\[\]|:])
  | (?P<ws>\s+)
@@ -73,13 +74,27 @@ class Parser:
             if self.at("if"):
                 # `if c { return e; }` (an early exit) or an if / else expression in tail position
                 self.next()
+                if self.at("let"):
+                    # `if let PAT = e { .. }` (no else): a statement
+                    self.next()
+                    pat = self.pattern()
+                    self.expect("=")
+                    e = self.expr()
+                    a = self.block()
+                    if self.at("else"):
+                        raise TranslateError("if let .. else is not supported")
+                    stmts.append(("iflet", pat, e, a))
+                    continue
                 c = self.expr()
                 a = self.block()
                 if self.at("else"):
                     self.next()
                     b = self.block() if not self.at("if") else self.primary()
-                    final = ("if", c, a, b)
-                    break
+                    if self.at("}") or self.peek()[0] == "eof":
+                        final = ("if", c, a, b)
+                        break
+                    stmts.append(("ifelse", c, a, b))
+                    continue
                 if a[0] == "block" and not a[1] and a[2] is not None:
                     stmts.append(("ifret", c, a[2]))
                     continue
@@ -100,13 +115,14 @@ class Parser:
                 name = self.next()
                 if name[0] != "id":
                     raise TranslateError("unsupported let pattern %r" % name[1])
+                ty = None
                 if self.at(":"):
                     self.next()
-                    self.next()      # a simple type annotation
+                    ty = self.next()[1]      # a simple type annotation
                 self.expect("=")
                 e = self.expr()
                 self.expect(";")
-                stmts.append(("let", name[1], e))
+                stmts.append(("let", name[1], e, ty))
                 continue
             e = self.expr()
             if self.peek()[1] in ("*=", "+=", "-=", "/=", "="):
@@ -119,7 +135,10 @@ class Parser:
                 continue
             if self.at(";"):
                 self.next()
-                raise TranslateError("an expression statement (side effect) is not translatable")
+                if e[0] == "macro" and e[1] in ("debug", "trace", "info", "warn"):
+                    continue          # logging has no effect on the values
+                stmts.append(("effect", e))     # only emit_world can express it; the other emitters refuse
+                continue
             final = e
             break
         return ("block", stmts, final)
@@ -153,6 +172,8 @@ class Parser:
             return ("not", self.unary())
         if self.at("&") or self.at("*"):
             self.next()
+            if self.at("mut"):
+                self.next()
             return self.unary()       # references and dereferences carry no arithmetic
         e = self.postfix()
         while self.at("as"):
@@ -189,6 +210,9 @@ class Parser:
         if kind == "num":
             self.next()
             return ("num", text)
+        if kind == "str":
+            self.next()
+            return ("str", text)
         if text == "(":
             self.next()
             e = self.expr()
@@ -367,6 +391,8 @@ def emit(n, cx):
     t = n[0]
     if t == "num":
         return number(n[1])
+    if t == "str":
+        return "tt"               # a message (of expect / panic!): no value
     if t == "var":
         if n[1] in CONSTS:
             return CONSTS[n[1]]
@@ -447,6 +473,8 @@ def emit(n, cx):
         simple = {"sqrt": "nsqrt", "sin": "fsin", "cos": "fcos", "acos": "facos", "exp": "fexp", "abs": "nabs", "is_nan": "nis_nan"}
         if name in simple and not a:
             return "(%s %s)" % (simple[name], r)
+        if name == "is_some" and not a:
+            return "(match %s with Some _ => true | None => false end)" % r
         if name in ("min", "max") and len(a) == 1:
             return "(n%s %s %s)" % (name, r, a[0])
         if name in ("mul", "add", "sub", "div") and len(a) == 1:
@@ -483,7 +511,8 @@ def emit(n, cx):
                 return emit(n[2], cx)
             s = n[1][i]
             if s[0] == "let":
-                return "(let %s := %s in %s)" % (s[1], emit(s[2], cx), rest(i + 1))
+                v = emit_int(s[2], cx) if s[3] in ("u64", "usize") and s[2][0] == "num" else emit(s[2], cx)
+                return "(let %s := %s in %s)" % (s[1], v, rest(i + 1))
             if s[0] == "assign":
                 rhs = emit(s[3], cx)
                 if s[2] != "=":
@@ -607,6 +636,174 @@ def emit_accum(block, var, cx, top=True):
             return "(let %s := fold_left (fun %s %s => %s) %s %s in %s)" % (var, var, pat_text(s[1]), body, emit(s[2], cx), var, rest(i + 1))
         raise TranslateError("unsupported statement in an accumulating loop")
     return rest(0)
+
+
+def emit_int(n, cx):
+    """an expression over unsigned integer counters (u64 / usize), as N"""
+    if n[0] == "num":
+        return "%d%%N" % int(n[1].replace("_", "").rstrip("u64size"))
+    if n[0] == "var":
+        return n[1]
+    if n[0] == "bin" and n[1] in ("+", "*"):
+        return "(N.%s %s %s)" % ({"+": "add", "*": "mul"}[n[1]], emit_int(n[2], cx), emit_int(n[3], cx))
+    raise TranslateError("unsupported integer expression")
+
+
+def emit_cond(n, cx, ints):
+    """a condition; comparisons in which a counter of `ints` takes part are comparisons of N"""
+    if n[0] == "bin" and n[1] in ("<", ">", "<=", ">=", "==") and any(x[0] == "var" and x[1] in ints for x in (n[2], n[3])):
+        l, r = emit_int(n[2], cx), emit_int(n[3], cx)
+        return {"<": "(N.ltb %s %s)" % (l, r), ">": "(N.ltb %s %s)" % (r, l), "<=": "(N.leb %s %s)" % (l, r),
+                ">=": "(N.leb %s %s)" % (r, l), "==": "(N.eqb %s %s)" % (l, r)}[n[1]]
+    return emit(n, cx)
+
+
+def emit_state(block, vars_, ints, ret, cx):
+    """a block of statements that update the mutable variables `vars_` (those in `ints` are unsigned counters), possibly
+    leaving the enclosing function by `return <ret>;`: the pair (returned early?, the variables afterwards).
+    Statements after an if / if let are duplicated into both branches (continuation passing by copying)."""
+    tup = "(%s)" % ", ".join(vars_)
+
+    def seq(b, k):
+        if b[0] != "block":
+            raise TranslateError("not a block")
+        stmts = list(b[1])
+        if b[2] is not None:
+            stmts.append(("final", b[2]))
+
+        def rest(i):
+            if i == len(stmts):
+                return k()
+            s = stmts[i]
+            if s[0] == "let":
+                return "(let %s := %s in %s)" % (s[1], emit(s[2], cx), rest(i + 1))
+            if s[0] == "assign":
+                if s[1] not in vars_:
+                    raise TranslateError("assignment to %s, which is not one of the tracked variables" % s[1])
+                if s[1] in ints:
+                    rhs = emit_int(s[3], cx)
+                    if s[2] != "=":
+                        rhs = "(N.%s %s %s)" % ({"+": "add", "*": "mul"}[s[2][0]], s[1], rhs)
+                else:
+                    rhs = emit(s[3], cx)
+                    if s[2] != "=":
+                        rhs = "(%s %s %s)" % (s[1], s[2][0], rhs)
+                return "(let %s := %s in %s)" % (s[1], rhs, rest(i + 1))
+            if s[0] == "ifret":
+                if s[2] != ("var", ret):
+                    raise TranslateError("an early return of something other than `%s`" % ret)
+                return "(if %s then (true, %s) else %s)" % (emit_cond(s[1], cx, ints), tup, rest(i + 1))
+            if s[0] == "ifblock":
+                return "(if %s then %s else %s)" % (emit_cond(s[1], cx, ints), seq(s[2], lambda: rest(i + 1)), rest(i + 1))
+            if s[0] == "ifelse" or (s[0] == "final" and s[1][0] == "if"):
+                n = s if s[0] == "ifelse" else s[1]
+                if n[3][0] != "block":
+                    raise TranslateError("else if in a statement position")
+                return "(if %s then %s else %s)" % (emit_cond(n[1], cx, ints), seq(n[2], lambda: rest(i + 1)), seq(n[3], lambda: rest(i + 1)))
+            if s[0] == "iflet":
+                if s[1][0] != "some":
+                    raise TranslateError("if let with a pattern other than Some(x)")
+                return "(match %s with Some %s => %s | None => %s end)" % (emit(s[2], cx), s[1][1], seq(s[3], lambda: rest(i + 1)), rest(i + 1))
+            if s[0] == "final" and s[1] == ("var", ret):
+                return "(true, %s)" % tup
+            raise TranslateError("unsupported statement (%s) in a state update" % s[0])
+        return rest(0)
+    return seq(block, lambda: "(false, %s)" % tup)
+
+
+def chain(n):
+    """(names joined by '.', all arguments in order) of a method chain rooted at a variable"""
+    if n[0] == "var":
+        return n[1], []
+    if n[0] == "method":
+        r, a = chain(n[1])
+        return r + "." + n[2], a + list(n[3])
+    raise TranslateError("not a method chain")
+
+
+def contains(n, k):
+    if isinstance(n, tuple):
+        if n and isinstance(n[0], str) and key(n) == k:
+            return True
+        return any(contains(x, k) for x in n)
+    if isinstance(n, list):
+        return any(contains(x, k) for x in n)
+    return False
+
+
+def emit_world(block, vars_, ints, cx, effects, reads):
+    """statements that act on a world `w` through the method chains of `effects` (chain -> function from the translated
+    arguments to a term of type `option world`, None being a panic), read it through `reads` (source key -> term of type
+    `value * world`), and update the local variables `vars_`: Some (w, vars) or None (panic).  Continuations are copied."""
+    tup = "(w, %s)" % ", ".join(vars_)
+
+    def with_reads(n, body):
+        """evaluate the world reads that occur in n first (one of each at most), then `body(cx')`"""
+        hit = [k for k in reads if contains(n, k)]
+        if not hit:
+            return body(cx)
+        if len(hit) > 1:
+            raise TranslateError("several world reads in one statement")
+        c2 = Ctx(subst=dict(cx.subst), calls=cx.calls, sq_for_powi2=cx.sq_for_powi2)
+        c2.subst[hit[0]] = "read_"
+        return "(let rw_ := %s in let read_ := fst rw_ in let w := snd rw_ in %s)" % (reads[hit[0]], body(c2))
+
+    def assign(name, op, rhs_text):
+        if name not in vars_:
+            raise TranslateError("assignment to %s, which is not one of the tracked variables" % name)
+        if op != "=":
+            if name in ints:
+                rhs_text = "(N.%s %s %s)" % ({"+": "add", "*": "mul"}[op[0]], name, rhs_text)
+            else:
+                rhs_text = "(%s %s %s)" % (name, op[0], rhs_text)
+        return rhs_text
+
+    def seq(b, k):
+        """b's statements, then k(final value's AST or None)"""
+        if b[0] != "block":
+            return k(b)
+        stmts = b[1]
+
+        def rest(i):
+            if i == len(stmts):
+                return k(b[2])
+            s = stmts[i]
+            if s[0] == "let":
+                return with_reads(s[2], lambda c: "(let %s := %s in %s)" % (s[1], emit(s[2], c), rest(i + 1)))
+            if s[0] == "effect":
+                names, args = chain(s[1])
+                if names not in effects:
+                    raise TranslateError("unknown effect %s" % names)
+                return "(match %s with Some w => %s | None => None end)" % (effects[names]([emit(a, cx) for a in args]), rest(i + 1))
+            if s[0] == "assign" and s[3][0] == "match":
+                scrut, arms = s[3][1], s[3][2]
+                pats = [a[0][0] for a in arms]
+                if sorted(pats) != ["none", "some"] or any(a[1] is not None for a in arms):
+                    raise TranslateError("assignment from a match that is not Some / None")
+                some = [a for a in arms if a[0][0] == "some"][0]
+                none = [a for a in arms if a[0][0] == "none"][0]
+
+                def arm(a):
+                    def fin(v):
+                        if v is None:
+                            raise TranslateError("a match arm without a value")
+                        rhs = emit_int(v, cx) if s[1] in ints else emit(v, cx)
+                        return "(let %s := %s in %s)" % (s[1], assign(s[1], s[2], rhs), rest(i + 1))
+                    return seq(a[2], fin)
+                return with_reads(scrut, lambda c: "(match %s with Some %s => %s | None => %s end)" % (emit(scrut, c), some[0][1], arm(some), arm(none)))
+            if s[0] == "assign":
+                rhs = emit_int(s[3], cx) if s[1] in ints else None
+                if rhs is None:
+                    return with_reads(s[3], lambda c: "(let %s := %s in %s)" % (s[1], assign(s[1], s[2], emit(s[3], c)), rest(i + 1)))
+                return "(let %s := %s in %s)" % (s[1], assign(s[1], s[2], rhs), rest(i + 1))
+            raise TranslateError("unsupported statement (%s) in a world update" % s[0])
+        return rest(0)
+
+    def top(v):
+        if v is not None:
+            raise TranslateError("a loop body with a value")
+        return "(Some %s)" % tup
+    return seq(block, top)
 
 
 def fn_body(src, name, nth=0, after=None):
